@@ -233,7 +233,7 @@ func lastLabelNumeric(h string) bool {
 }
 
 func TestVerif_C13(t *testing.T) {
-	res := newVerifResult("redirect_uri strings from an adversarial URL grammar (scheme x userinfo x host x port x path x query, biased to one defect per URL; 2200 quick / 120000 thorough, plus a fixed list) x 8 client configurations (domains only, patterns only, both, none, leading-dot domain, two domains, empty domain, unanchored pattern); CanRedirectToURL, CorsOriginAllowed, generic CORS check and GET /idp/oauth2/authorize; non-trivial = url.Parse accepted the string with scheme https; distinct by (url, verdict vector)")
+	res := newVerifResult("redirect_uri strings from an adversarial URL grammar (scheme x userinfo x host x port x path x query, biased to one defect per URL; 2200 quick / 120000 thorough, plus a fixed list) x 12 client configurations (domains only, patterns only, both, none, leading-dot domain, two domains, empty domain, unanchored pattern, and four with patterns the regexp library refuses: alone, with domains, before and after a usable one); CanRedirectToURL, CorsOriginAllowed, generic CORS check and GET /idp/oauth2/authorize; non-trivial = url.Parse accepted the string with scheme https; distinct by (url, verdict vector)")
 	configs := []c13Config{
 		{"domains", []string{"example.com"}, nil},
 		{"patterns", nil, []string{`^https://[^/@?#\\]*\.example\.com(:[0-9]+)?(/[^?#]*)?$`}},
@@ -243,6 +243,12 @@ func TestVerif_C13(t *testing.T) {
 		{"two", []string{"corp.internal", "example.com"}, nil},
 		{"emptydomain", []string{""}, nil},
 		{"loosepattern", nil, []string{"localhost"}},
+		// patterns the regexp library refuses (PCRE look-around, named group left open, bad repeat): the decision
+		// must be an error whenever such a pattern is met before one that matches, never a fall-back to the domains
+		{"unusable+domains", []string{"example.com"}, []string{`^https://(?!evil)[^/]*\.example\.com/`}},
+		{"unusable-only", nil, []string{`a{2,1}`}},
+		{"unusable-then-good", []string{"example.com"}, []string{`(?<open`, `^https://app\.example\.com(/[^?#]*)?$`}},
+		{"good-then-unusable", []string{"example.com"}, []string{`^https://app\.example\.com(/[^?#]*)?$`, `(?=x)`}},
 	}
 	env := verifSetup(t, func(c *AppConfigFile, dir string) {
 		c.Base.AllowedAuthBackendsForWebUI = []string{"password"}
@@ -265,18 +271,29 @@ func TestVerif_C13(t *testing.T) {
 				t.Fatal(err)
 			}
 			ok, _, err := client.CanRedirectToURL(raw)
+			obsCoq := "Some " + coqBool(ok)
 			if err != nil {
 				ok = false
+				obsCoq = "None"
 			}
+			// the regexp library's verdict per configured pattern (independent of the code's loop)
 			re := false
+			var pres []string
 			for _, p := range cf.patterns {
-				if m, _ := regexp.MatchString(p, raw); m {
+				cre, cerr := regexp.Compile(p)
+				switch {
+				case cerr != nil:
+					pres = append(pres, "PErr")
+				case cre.MatchString(raw):
+					pres = append(pres, "PMatch")
 					re = true
+				default:
+					pres = append(pres, "PNoMatch")
 				}
 			}
 			cors, _ := client.CorsOriginAllowed(raw)
-			verdicts = append(verdicts, coqBool(ok))
-			remList = append(remList, coqBool(re))
+			verdicts = append(verdicts, obsCoq)
+			remList = append(remList, "["+strings.Join(pres, ";")+"]")
 			corsList = append(corsList, coqBool(cors))
 			cs := map[string]interface{}{"redirect_uri": raw, "client": cf.name}
 			if ok {
@@ -291,7 +308,7 @@ func TestVerif_C13(t *testing.T) {
 					key = "dotdot"
 				case len(cf.domains) > 0 && !domainOK(view.host, cf.domains):
 					key = "lookalike-host"
-				case len(cf.domains) == 0 && !re:
+				case len(cf.patterns) > 0 && !re:
 					key = "pattern"
 				}
 				if key != "" {
@@ -386,9 +403,10 @@ func TestVerif_C13(t *testing.T) {
 		sb.WriteString(fmt.Sprintf("([%s], %d%%nat)", strings.Join(ds, ";"), len(cf.patterns)))
 	}
 	sb.WriteString("].\nDefinition all_domains : list bs := flat_map fst configs.\n")
-	sb.WriteString("Fixpoint zip3 (c : list (list bs * nat)) (r o : list bool) : list (list bs * nat * bool * bool) := match c, r, o with x :: c', a :: r', b :: o' => (x, a, b) :: zip3 c' r' o' | _, _, _ => [] end.\n")
-	sb.WriteString("Definition c13_bad (c : option parsed * list bool * list bool * list bool * bool) : bool :=\n  let '(p, res, obs, cors, generic) := c in\n  negb (forallb (fun x : list bs * nat * bool * bool => let '(cfg, re, o) := x in Bool.eqb (can_redirect (fst cfg) (snd cfg) re p) o) (zip3 configs res obs))\n  || negb (forallb (fun x : list bs * nat * bool * bool => let '(cfg, _, o) := x in Bool.eqb (cors_allowed (fst cfg) p) o) (zip3 configs res cors))\n  || negb (Bool.eqb (cors_allowed all_domains p) generic).\n")
-	sb.WriteString("Definition cases : list (option parsed * list bool * list bool * list bool * bool) := [\n " + strings.Join(cases, ";\n ") + "].\n")
+	sb.WriteString("Fixpoint zip3 {A B : Type} (c : list (list bs * nat)) (r : list A) (o : list B) : list (list bs * nat * A * B) := match c, r, o with x :: c', a :: r', b :: o' => (x, a, b) :: zip3 c' r' o' | _, _, _ => [] end.\n")
+	sb.WriteString("Definition ob_eqb (a b : option bool) : bool := match a, b with Some x, Some y => Bool.eqb x y | None, None => true | _, _ => false end.\n")
+	sb.WriteString("Definition c13_bad (c : option parsed * list (list pres) * list (option bool) * list bool * bool) : bool :=\n  let '(p, res, obs, cors, generic) := c in\n  negb (Nat.eqb (length res) (length configs)) || negb (Nat.eqb (length obs) (length configs))\n  || negb (forallb (fun x : list bs * nat * list pres * option bool => let '(cfg, pats, o) := x in Nat.eqb (length pats) (snd cfg) && ob_eqb (can_redirect_p (fst cfg) pats p) o) (zip3 configs res obs))\n  || negb (forallb (fun x : list bs * nat * list pres * bool => let '(cfg, _, o) := x in Bool.eqb (cors_allowed (fst cfg) p) o) (zip3 configs res cors))\n  || negb (Bool.eqb (cors_allowed all_domains p) generic).\n")
+	sb.WriteString("Definition cases : list (option parsed * list (list pres) * list (option bool) * list bool * bool) := [\n " + strings.Join(cases, ";\n ") + "].\n")
 	sb.WriteString("Definition pcases : list (bs * bool * option parsed) := [\n " + strings.Join(pcases, ";\n ") + "].\n")
 	sb.WriteString("Definition c13_split_mismatches := Eval vm_compute in mismatches split_bad pcases.\nPrint c13_split_mismatches.\n")
 	sb.WriteString("Definition c13_split_accepted := Eval vm_compute in length (filter (fun c : bs * bool * option parsed => match plain_split (fst (fst c)) with Some _ => true | None => false end) pcases).\nPrint c13_split_accepted.\n")
